@@ -1,0 +1,81 @@
+//go:build verif
+
+package tls
+
+// Verification hooks for property C01 (parsers of untrusted bytes are total).
+// Thin: a constructor table for the handshake message / session state types and
+// one function that runs the type's own unmarshal method on caller bytes.
+
+// VerifC01Kinds lists the message kinds VerifC01Unmarshal accepts.
+var VerifC01Kinds = []string{
+	"clientHello", "serverHello", "encryptedExtensions", "endOfEarlyData",
+	"keyUpdate", "newSessionTicketTLS13", "certificateRequestTLS13",
+	"certificate", "certificateTLS13", "serverKeyExchange", "certificateStatus",
+	"serverHelloDone", "clientKeyExchange", "finished", "certificateRequest",
+	"certificateRequestTLS12",                     // certificateRequestMsg with hasSignatureAlgorithm set
+	"certificateVerify", "certificateVerifyTLS12", // the latter with hasSignatureAlgorithm set
+	"newSessionTicket", "helloRequest",
+	"sessionState", "sessionStateTLS13",
+}
+
+type verifC01Unmarshaler interface{ unmarshal([]byte) bool }
+
+func verifC01New(kind string) verifC01Unmarshaler {
+	switch kind {
+	case "clientHello":
+		return new(clientHelloMsg)
+	case "serverHello":
+		return new(serverHelloMsg)
+	case "encryptedExtensions":
+		return new(encryptedExtensionsMsg)
+	case "endOfEarlyData":
+		return new(endOfEarlyDataMsg)
+	case "keyUpdate":
+		return new(keyUpdateMsg)
+	case "newSessionTicketTLS13":
+		return new(newSessionTicketMsgTLS13)
+	case "certificateRequestTLS13":
+		return new(certificateRequestMsgTLS13)
+	case "certificate":
+		return new(certificateMsg)
+	case "certificateTLS13":
+		return new(certificateMsgTLS13)
+	case "serverKeyExchange":
+		return new(serverKeyExchangeMsg)
+	case "certificateStatus":
+		return new(certificateStatusMsg)
+	case "serverHelloDone":
+		return new(serverHelloDoneMsg)
+	case "clientKeyExchange":
+		return new(clientKeyExchangeMsg)
+	case "finished":
+		return new(finishedMsg)
+	case "certificateRequest":
+		return new(certificateRequestMsg)
+	case "certificateRequestTLS12":
+		return &certificateRequestMsg{hasSignatureAlgorithm: true}
+	case "certificateVerify":
+		return new(certificateVerifyMsg)
+	case "certificateVerifyTLS12":
+		return &certificateVerifyMsg{hasSignatureAlgorithm: true}
+	case "newSessionTicket":
+		return new(newSessionTicketMsg)
+	case "helloRequest":
+		return new(helloRequestMsg)
+	case "sessionState":
+		return new(sessionState)
+	case "sessionStateTLS13":
+		return new(sessionStateTLS13)
+	}
+	return nil
+}
+
+// VerifC01Unmarshal runs unmarshal(data) on a fresh value of the given kind.
+// known is false when kind is not in VerifC01Kinds.
+func VerifC01Unmarshal(kind string, data []byte) (ok, known bool) {
+	m := verifC01New(kind)
+	if m == nil {
+		return false, false
+	}
+	return m.unmarshal(data), true
+}
